@@ -200,9 +200,9 @@ func runC04(a args) error {
 		}
 	}
 	// the cookie CSRF rule: Origin x Referer x configured origins, cookie alone on a POST
-	origins := []string{"", allowedOrigin, otherOrigin}
+	origins := []string{"", allowedOrigin, otherOrigin, "null"} // "null": a present Origin that names nobody
 	referers := []string{"", allowedOrigin + "/page?x=1", otherOrigin + "/page", "http://[::1"}
-	originCfgs := [][]string{nil, {allowedOrigin, "https://second.example"}, {"*"}}
+	originCfgs := [][]string{nil, {allowedOrigin, "https://second.example"}, {"*"}, {"null", allowedOrigin}}
 	for _, c := range []carrierState{cValid, cInvalid} {
 		for _, o := range origins {
 			for _, ref := range referers {
